@@ -17,7 +17,8 @@
 EXTENDS Integers, Sequences, FiniteSets, SequencesExt
 
 CONSTANTS ActiveT, InactiveT,   \* timeouts, in units
-          MaxRetries
+          MaxRetries,
+          MinU                    \* the library's MinExpiryTime (package variable), in units; 0 = "a sub-unit amount"
 
 VARIABLES
   now,      \* virtual clock
@@ -241,10 +242,15 @@ ScanAndReset(order, fail, res) ==
 
 \* queries (no effect)
 NumFlows == Cardinality(Held)
-\* advertised time to the next expiry, in units (the sub-unit MinExpiryTime is ignored)
-NextExpiry == IF queue = {} THEN (IF ActiveT < InactiveT THEN ActiveT ELSE InactiveT)
-              ELSE LET m == CHOOSE x \in { MinT(it) : it \in queue } : \A y \in { MinT(it) : it \in queue } : x <= y
-                   IN Max2(0, m - now)
+\* advertised time to the next expiry, in units: MinExpiryTime after the earliest deadline; when that instant has
+\* passed (real time is strictly later than the virtual instant, hence <=) the code answers MinExpiryTime itself -
+\* so the answer is not monotonic in the lateness when MinU > 0, which is what the code does. With MinU = 0 (the
+\* default 100 ms against units of an hour) this is Max2(0, m - now).
+NextExpiryOf(q, t) == IF q = {} THEN (IF ActiveT < InactiveT THEN ActiveT ELSE InactiveT)
+                      ELSE LET ms == { MinT(it) : it \in q }
+                               m  == CHOOSE x \in ms : \A y \in ms : x <= y
+                           IN IF MinU + m - t <= 0 THEN MinU ELSE MinU + m - t
+NextExpiry == NextExpiryOf(queue, now)
 
 ---------------------------------------------------------------------------
 (* C06 / C07 invariants *)
